@@ -1,7 +1,7 @@
 PROP = dict(
     id="C20",
     lean_modules=["TongoProofs.C20"],
-    gen=["IntJson", "BocHeader", "CellDesc", "MinBits"],
+    gen=["IntJson"],
     spec_ops=(),
     rule="values: every generated integer width 1..64 signed and unsigned at 0, 1, max, max-1, min, min+1, -1 and random "
          "values; every big.Int type at 0, +-1, +-2^w boundaries and random; every BitsN length; ton.Bits256, tl.Int256, "
